@@ -527,6 +527,8 @@ def spot_check(check_id, tier, seed, legs, results):
     """Re-execute a few units in a fresh interpreter under another PYTHONHASHSEED and compare digest lists."""
     picks = []
     for li, leg in enumerate(legs):
+        if leg.get('spot') is False:
+            continue      # units of this leg cost minutes each (convex fault-point enumeration); covered by selftest-determinism instead
         if leg['units'] > 0 and (li, 0) in results and 'digests' in results[(li, 0)]:
             picks.append((li, 0))
         if leg['units'] > 3 and (li, 3) in results and 'digests' in results[(li, 3)]:
